@@ -36,6 +36,8 @@ type Solver struct {
 	TotalTime time.Duration
 	MaxTime   time.Duration
 	Errors    []string
+	Fallbacks int
+	IncMs     int // timeout of the incremental attempt (default 8000 ms)
 }
 
 func NewSolver(bin string, timeoutMs int) (*Solver, error) {
@@ -100,7 +102,14 @@ func (s *Solver) Reset() {
 		s.send("(set-logic ALL)")
 	} else {
 		s.send("(reset)")
-		s.send(fmt.Sprintf("(set-option :timeout %d)", s.TimeoutMs))
+		inc := s.IncMs
+		if inc == 0 {
+			inc = 8000
+		}
+		if inc > s.TimeoutMs {
+			inc = s.TimeoutMs
+		}
+		s.send(fmt.Sprintf("(set-option :timeout %d)", inc))
 	}
 }
 
@@ -256,6 +265,28 @@ func (s *Solver) Check(extras []*Term, modelVars []*Term) (Result, map[string]ui
 		s.Errors = append(s.Errors, line)
 	}
 	var model map[string]uint64
+	if res == Unknown && snapshot != "" && !strings.HasPrefix(line, "(error") && os.Getenv("VERIF_NO_FALLBACK") == "" {
+		// The incremental (push/pop) pipeline of z3 4.8.12 is much weaker than its one-shot
+		// pipeline on some bit-vector queries (e.g. bvurem ranges): re-decide the same query as a
+		// standalone script, on z3 5.1.0 first, then on z3 4.8.12.
+		s.send("(pop 1)")
+		script := standaloneScript(snapshot)
+		t1 := time.Now()
+		for _, bin := range []string{"z3-new", "z3"} {
+			r, mod := runStandalone(bin, script, modelVars, s.TimeoutMs)
+			if r != Unknown {
+				res, model = r, mod
+				s.Fallbacks++
+				break
+			}
+		}
+		d2 := time.Since(t1)
+		s.TotalTime += d2
+		if d2 > s.MaxTime {
+			s.MaxTime = d2
+		}
+		return res, model, snapshot
+	}
 	if res == Sat && len(modelVars) > 0 {
 		model = map[string]uint64{}
 		// ask in chunks to keep lines short
@@ -336,4 +367,65 @@ func RunScript(bin string, script string, timeoutMs int) string {
 		}
 	}
 	return "no-answer"
+}
+
+// standaloneScript removes every closed (push 1)…(pop 1) block and the push markers from a
+// session log, leaving declarations, definitions, the permanent assertions and the assertions
+// of the still-open query.
+func standaloneScript(log string) string {
+	var out []string
+	var starts []int
+	for _, l := range strings.Split(log, "\n") {
+		switch l {
+		case "(push 1)":
+			starts = append(starts, len(out))
+		case "(pop 1)":
+			if n := len(starts); n > 0 {
+				out = out[:starts[n-1]]
+				starts = starts[:n-1]
+			}
+		case "(check-sat)", "(reset)":
+		default:
+			if strings.HasPrefix(l, "(set-option :timeout") {
+				continue
+			}
+			out = append(out, l)
+		}
+	}
+	return strings.Join(out, "\n") + "\n"
+}
+
+func runStandalone(bin, script string, modelVars []*Term, timeoutMs int) (Result, map[string]uint64) {
+	var sb strings.Builder
+	sb.WriteString(script)
+	sb.WriteString("(check-sat)\n")
+	if len(modelVars) > 0 {
+		var names []string
+		for _, v := range modelVars {
+			names = append(names, v.Name)
+		}
+		sb.WriteString("(get-value (" + strings.Join(names, " ") + "))\n")
+	}
+	cmd := exec.Command(bin, "-in", "-smt2", fmt.Sprintf("-t:%d", timeoutMs))
+	cmd.Stdin = strings.NewReader(sb.String())
+	out, _ := cmd.Output()
+	text := string(out)
+	i := strings.Index(text, "\n")
+	first := strings.TrimSpace(text)
+	rest := ""
+	if i >= 0 {
+		first = strings.TrimSpace(text[:i])
+		rest = text[i+1:]
+	}
+	switch first {
+	case "unsat":
+		return Unsat, nil
+	case "sat":
+		model := map[string]uint64{}
+		if !strings.Contains(rest, "(error") {
+			parseValues(rest, model)
+		}
+		return Sat, model
+	}
+	return Unknown, nil
 }
